@@ -4,6 +4,7 @@
 -- coincide with the hand-written model `Model.Poly` for EVERY operations record `O : Ops α` (instantiated through
 -- `O.toX`, Winter/Model/PolyGen.lean) and all inputs.
 import Winter.Model.PolyGen
+import WinterProofs.Lemmas.C20Div
 import WinterProofs.Lemmas.GenTactic
 
 namespace C20G
@@ -159,5 +160,328 @@ theorem gen_degree_of_eq (p : List α) :
   cases h : stripRev O p with
   | nil => rw [h] at h1; simp [h1, h2]
   | cons y t => rw [h] at h1; simp [h1, h2]
+
+/-! ## `div` -/
+
+@[simp] theorem toX_sub : O.toX.sub = O.sub := rfl
+@[simp] theorem toX_mul : O.toX.mul = O.mul := rfl
+@[simp] theorem toX_add : O.toX.add = O.add := rfl
+theorem toX_div (x y : α) : O.toX.div x y = O.mul x (O.invT y) := rfl
+
+theorem updAt_eq (r : List α) (k : Nat) (f : α → α) :
+    updAt r k f = if k < r.length then .ok (r.set k (f (r.getD k O.zero))) else .panic "index out of bounds" := by
+  unfold updAt
+  by_cases h : k < r.length
+  · simp [h, List.getD]
+  · simp [h]
+
+theorem getAt_eq (r : List α) (k : Nat) :
+    getAt r k = if k < r.length then .ok (r.getD k O.zero) else .panic "index out of bounds" := by
+  unfold getAt
+  by_cases h : k < r.length
+  · simp [h, List.getD]
+  · simp [h]
+
+/-- the inner loop of `div` (`for j in (0..bpos).rev() { a[i + j] -= b[j] * quot }`) -/
+theorem divInner (b : List α) (i : Nat) (quot : α) : ∀ (js : List Nat) (a : List α),
+    (∀ j ∈ js, j < b.length) → a.length < 18446744073709551616 →
+    loopM (js.map fun j => (b.getD j O.zero, j)) a
+        (fun a bj => updAt a (i + bj.2) fun v => O.sub v (O.mul bj.1 quot))
+      = if Gen.Polynom.div.for1_body.for1_ok O.toX b i quot js a = true
+        then .ok (Gen.Polynom.div.for1_body.for1 O.toX b i quot js a) else .panic "index out of bounds" := by
+  intro js
+  induction js with
+  | nil => intro a _ _; simp [loopM, Gen.Polynom.div.for1_body.for1, Gen.Polynom.div.for1_body.for1_ok]
+  | cons j t ih =>
+    intro a hb ha
+    have hj : j < b.length := hb j (by simp)
+    rw [List.map_cons, loopM, Gen.Polynom.div.for1_body.for1, Gen.Polynom.div.for1_body.for1_ok, updAt_eq O]
+    unfold_gen Gen.Polynom
+    simp only [toX_zero, toX_sub, toX_mul]
+    by_cases hk : i + j < a.length
+    · have hk' : i + j < 18446744073709551616 := by omega
+      simp only [hk, hk', hj, if_true, decide_true, Bool.true_and]
+      exact ih _ (fun x hx => hb x (by simp [hx])) (by simpa using ha)
+    · simp [hk]
+
+theorem setAt_eq (r : List α) (k : Nat) (c : α) :
+    setAt r k c = if k < r.length then .ok (r.set k c) else .panic "index out of bounds" := rfl
+
+theorem div_total (hinv : ∀ y, (O.inv y).isSome = true) (x y : α) : O.div x y = .ok (O.mul x (O.invT y)) := by
+  unfold Ops.div Ops.invT
+  cases h : O.inv y with
+  | none => have := hinv y; rw [h] at this; cases this
+  | some i => rfl
+
+theorem zipIdx_take_rev (b : List α) (bpos : Nat) (hb : bpos ≤ b.length) :
+    (b.take bpos).zipIdx.reverse = (List.range' 0 bpos).reverse.map (fun j => (b.getD j O.zero, j)) := by
+  have key : (b.take bpos).zipIdx = (List.range' 0 bpos).map (fun j => (b.getD j O.zero, j)) := by
+    apply List.ext_getElem
+    · simp [Nat.min_eq_left hb]
+    · intro n h1 h2
+      simp only [List.length_zipIdx, List.length_take] at h1
+      have hn : n < b.length := by omega
+      simp [List.getD, List.getElem?_eq_getElem hn]
+  rw [key, List.map_reverse]
+
+/-- one iteration of the outer loop of `div` -/
+theorem divStep_eq (hinv : ∀ y, (O.inv y).isSome = true) (b : List α) (bpos : Nat) (hb : bpos ≤ b.length)
+    (i : Nat) (a result : List α) (apos : Nat) (ha : a.length < 18446744073709551616) :
+    divStep O b bpos { a := a, result := result, apos := apos } i
+      = if Gen.Polynom.div.for1_body_ok O.toX i a apos result b bpos = true
+        then .ok { a := (Gen.Polynom.div.for1_body O.toX i a apos result b bpos).1,
+                   result := (Gen.Polynom.div.for1_body O.toX i a apos result b bpos).2.2,
+                   apos := (Gen.Polynom.div.for1_body O.toX i a apos result b bpos).2.1 }
+        else .panic "index out of bounds" := by
+  unfold divStep
+  rw [getAt_eq O, getAt_eq O b, zipIdx_take_rev O b bpos hb]
+  unfold_gen Gen.Polynom
+  simp only [toX_zero, toX_div, Nat.sub_zero]
+  by_cases h1 : apos < a.length
+  case neg => simp [h1, Res.bind]
+  by_cases h2 : bpos < b.length
+  case neg => simp [h1, h2, Res.bind]
+  simp only [h1, h2, if_true, Res.bind, div_total O hinv, setAt_eq]
+  obtain ⟨q, hq⟩ : ∃ q, O.mul (a.getD apos O.zero) (O.invT (b.getD bpos O.zero)) = q := ⟨_, rfl⟩
+  simp only [hq]
+  by_cases h3 : i < result.length
+  case neg => simp [h3]
+  simp only [h3, if_true]
+  rw [divInner O b i q _ a (by intro j hj; simp at hj; omega) ha]
+  by_cases h4 : Gen.Polynom.div.for1_body.for1_ok O.toX b i q (List.range' 0 bpos).reverse a = true
+  case neg => rw [if_neg h4]; simp [h4]
+  rw [if_pos h4]
+  have hw : wrappingPred apos = (apos + 18446744073709551616 - 1) % 18446744073709551616 := by
+    unfold wrappingPred; split <;> omega
+  rw [hw]
+  simp only [h4, decide_true, Bool.true_and, Bool.and_true, if_true]
+
+theorem divInner_length (b : List α) (i : Nat) (quot : α) : ∀ (js : List Nat) (a : List α),
+    (Gen.Polynom.div.for1_body.for1 O.toX b i quot js a).length = a.length := by
+  intro js
+  induction js with
+  | nil => intro a; simp [Gen.Polynom.div.for1_body.for1]
+  | cons j t ih =>
+    intro a
+    rw [Gen.Polynom.div.for1_body.for1]
+    unfold_gen Gen.Polynom
+    rw [ih]; simp
+
+/-- the outer loop of `div` -/
+theorem divOuter (hinv : ∀ y, (O.inv y).isSome = true) (b : List α) (bpos : Nat) (hb : bpos ≤ b.length) :
+    ∀ (is : List Nat) (a result : List α) (apos : Nat), a.length < 18446744073709551616 →
+    loopM is { a := a, result := result, apos := apos } (divStep O b bpos)
+      = if Gen.Polynom.div.for1_ok O.toX b bpos is a apos result = true
+        then .ok { a := (Gen.Polynom.div.for1 O.toX b bpos is a apos result).1,
+                   result := (Gen.Polynom.div.for1 O.toX b bpos is a apos result).2.2,
+                   apos := (Gen.Polynom.div.for1 O.toX b bpos is a apos result).2.1 }
+        else .panic "index out of bounds" := by
+  intro is
+  induction is with
+  | nil => intro a result apos _; simp [Gen.Polynom.div.for1, Gen.Polynom.div.for1_ok]
+  | cons i t ih =>
+    intro a result apos ha
+    rw [loopM, divStep_eq O hinv b bpos hb i a result apos ha, Gen.Polynom.div.for1, Gen.Polynom.div.for1_ok]
+    by_cases hk : Gen.Polynom.div.for1_body_ok O.toX i a apos result b bpos = true
+    · rw [if_pos hk]
+      simp only [hk, Bool.true_and]
+      refine ih _ _ _ ?_
+      unfold_gen Gen.Polynom
+      rw [divInner_length]; exact ha
+    · rw [if_neg hk]
+      simp [hk]
+
+open WinterProofs.C20 in
+/-- ★ `div` (long division: the `apos`/`bpos` loop with its inner subtraction loop, the three assertions, the
+    early return for an empty dividend), for every operations record whose `inv` returns and every dividend a
+    `usize` can index: the model returns `ok r` exactly when the regenerated no-panic condition holds and the
+    regenerated function returns `r`; it never hangs -/
+theorem gen_div_eq (hinv : ∀ y, (O.inv y).isSome = true) (a b : List α) (ha : a.length < 18446744073709551616) :
+    (∀ r, div O a b = .ok r ↔ (Gen.Polynom.div_ok O.toX a b = true ∧ Gen.Polynom.div O.toX a b = r)) ∧
+    div O a b ≠ .hang := by
+  have hb : degreeOf O b ≤ b.length := by
+    cases b with
+    | nil => simp [degreeOf, stripRev]
+    | cons x t => exact Nat.le_of_lt (degreeOf_lt_length (O := O) (x :: t) (by simp))
+  have hap : a ≠ [] → degreeOf O a < a.length := fun h => degreeOf_lt_length (O := O) a h
+  have hloop := divOuter O hinv b (degreeOf O b) hb
+    (List.range' 0 (degreeOf O a - degreeOf O b + 1)).reverse a
+    (List.replicate (degreeOf O a - degreeOf O b + 1) O.zero) (degreeOf O a) ha
+  unfold div Gen.Polynom.div_ok
+  unfold_gen Gen.Polynom.div
+  simp only [(gen_degree_of_eq O _).1, (gen_degree_of_eq O _).2, toX_zero, toX_isZero, List.length_replicate,
+    Nat.sub_zero, List.range_eq_range', decide_true, Bool.true_and, Bool.and_eq_true, decide_eq_true_eq,
+    Bool.decide_eq_true, ge_iff_le]
+  by_cases h1 : degreeOf O a < degreeOf O b
+  · simp [h1]
+  by_cases h2 : degreeOf O b = 0 ∧ b.isEmpty = true
+  · simp [h1, h2]
+  have hz : headIsZero O b = O.isZero (b.getD 0 O.zero) ∨ b = [] := by
+    cases b with
+    | nil => exact Or.inr rfl
+    | cons x t => left; simp [headIsZero]
+  have f2 : degreeOf O b = 0 → ¬ b.isEmpty = true := fun h0 he => h2 ⟨h0, he⟩
+  have f3 : degreeOf O b = 0 → 0 < b.length := by
+    intro h0; have := f2 h0
+    cases b with
+    | nil => simp at this
+    | cons x t => simp
+  by_cases h3 : degreeOf O b = 0 ∧ headIsZero O b = true
+  · simp only [h1, h2, h3, if_false, if_true, and_self]
+    have : O.isZero (b.getD 0 O.zero) = true := by
+      rcases hz with h | h
+      · rw [← h]; exact h3.2
+      · exact absurd (by rw [h]; rfl) (f2 h3.1)
+    have this' : O.isZero (b[0]?.getD O.zero) = true := by simpa [List.getD] using this
+    by_cases hb0 : b = [] <;> simp [hb0, this']
+  have f4 : degreeOf O b = 0 → ¬ O.isZero (b.getD 0 O.zero) = true := by
+    intro h0 hc
+    rcases hz with h | h
+    · exact h3 ⟨h0, by rw [h]; exact hc⟩
+    · exact absurd (by rw [h]; rfl) (f2 h0)
+  have f1 : degreeOf O b ≤ degreeOf O a := by omega
+  have g2 : degreeOf O b = 0 → ¬ b = [] := fun h0 he => f2 h0 (by rw [he]; rfl)
+  have g4 : degreeOf O b = 0 → O.isZero (b[0]?.getD O.zero) = false := by
+    intro h0
+    have := f4 h0
+    simpa [List.getD] using this
+  by_cases h4 : a.isEmpty = true
+  · simp only [h1, h2, h3, h4, if_false, if_true]
+    simp [f1, f3]
+    exact ⟨⟨g2, f3⟩, g4⟩
+  · simp only [h1, h2, h3, h4, if_false, if_true, hloop]
+    have hne : a ≠ [] := by intro h; rw [h] at h4; simp at h4
+    have f5 : degreeOf O a - degreeOf O b + 1 < 18446744073709551616 := by have := hap hne; omega
+    by_cases hk : Gen.Polynom.div.for1_ok O.toX b (degreeOf O b)
+        (List.range' 0 (degreeOf O a - degreeOf O b + 1)).reverse a (degreeOf O a)
+        (List.replicate (degreeOf O a - degreeOf O b + 1) O.zero) = true
+    · simp [hk, Res.bind, f1, f3, f5]
+      exact ⟨⟨g2, f3⟩, g4⟩
+    · simp [hk, Res.bind]
+
+/-! ## `serial_batch_inversion` -/
+
+@[simp] theorem toX_inv : O.toX.inv = O.invT := rfl
+
+/-- first loop (`for (result, &value) in result.iter_mut().zip(values.iter())`): the prefix products -/
+theorem binvFwd : ∀ (vs rs acc : List α) (last : α), rs.length = vs.length →
+    Gen.MathUtils.serial_batch_inversion.for1 O.toX (List.zip rs vs) last acc =
+      ((binvForward O vs last).2, acc ++ (binvForward O vs last).1) ∧
+    Gen.MathUtils.serial_batch_inversion.for1_ok O.toX (List.zip rs vs) last acc = true := by
+  intro vs
+  induction vs with
+  | nil =>
+    intro rs acc last h
+    have : rs = [] := List.length_eq_zero_iff.mp h
+    subst this
+    simp [Gen.MathUtils.serial_batch_inversion.for1, Gen.MathUtils.serial_batch_inversion.for1_ok, binvForward]
+  | cons v vs ih =>
+    intro rs acc last h
+    cases rs with
+    | nil => simp at h
+    | cons r rs =>
+      rw [List.zip_cons_cons, Gen.MathUtils.serial_batch_inversion.for1,
+        Gen.MathUtils.serial_batch_inversion.for1_ok, binvForward]
+      unfold_gen Gen.MathUtils
+      simp only [toX_isZero, toX_mul, Bool.true_and]
+      obtain ⟨h1, h2⟩ := ih rs (acc ++ [last]) (if O.isZero v = true then last else O.mul last v) (by simpa using h)
+      by_cases hz : O.isZero v = true
+      · simp only [hz, if_true] at h1 h2 ⊢
+        simp [h1, h2]
+      · have hz' : O.isZero v = false := by simpa using hz
+        simp only [hz', Bool.false_eq_true, if_false] at h1 h2 ⊢
+        simp [h1, h2]
+
+theorem binvFor2_append (vals : List α) : ∀ (l1 l2 : List Nat) (res : List α) (last : α),
+    Gen.MathUtils.serial_batch_inversion.for2 O.toX vals (l1 ++ l2) res last =
+      Gen.MathUtils.serial_batch_inversion.for2 O.toX vals l2
+        (Gen.MathUtils.serial_batch_inversion.for2 O.toX vals l1 res last).1
+        (Gen.MathUtils.serial_batch_inversion.for2 O.toX vals l1 res last).2 ∧
+    Gen.MathUtils.serial_batch_inversion.for2_ok O.toX vals (l1 ++ l2) res last =
+      (Gen.MathUtils.serial_batch_inversion.for2_ok O.toX vals l1 res last &&
+       Gen.MathUtils.serial_batch_inversion.for2_ok O.toX vals l2
+        (Gen.MathUtils.serial_batch_inversion.for2 O.toX vals l1 res last).1
+        (Gen.MathUtils.serial_batch_inversion.for2 O.toX vals l1 res last).2) := by
+  intro l1
+  induction l1 with
+  | nil => intro l2 res last; simp [Gen.MathUtils.serial_batch_inversion.for2, Gen.MathUtils.serial_batch_inversion.for2_ok]
+  | cons i t ih =>
+    intro l2 res last
+    rw [List.cons_append, Gen.MathUtils.serial_batch_inversion.for2, Gen.MathUtils.serial_batch_inversion.for2_ok,
+      Gen.MathUtils.serial_batch_inversion.for2, Gen.MathUtils.serial_batch_inversion.for2_ok]
+    obtain ⟨h1, h2⟩ := ih l2 (Gen.MathUtils.serial_batch_inversion.for2_body O.toX i res last vals).1
+      (Gen.MathUtils.serial_batch_inversion.for2_body O.toX i res last vals).2
+    simp only [h1, h2, Bool.and_assoc]
+    exact ⟨trivial, trivial⟩
+
+/-- second loop (`for i in (0..n).rev()`), on the part of the vectors after a common prefix -/
+theorem binvBwd : ∀ (vs ps pv pp : List α) (last : α), vs.length = ps.length → pv.length = pp.length →
+    Gen.MathUtils.serial_batch_inversion.for2 O.toX (pv ++ vs) (List.range' pv.length vs.length).reverse (pp ++ ps) last =
+      (pp ++ (binvBackward O (vs.zip ps) last).1, (binvBackward O (vs.zip ps) last).2) ∧
+    Gen.MathUtils.serial_batch_inversion.for2_ok O.toX (pv ++ vs) (List.range' pv.length vs.length).reverse (pp ++ ps) last
+      = true := by
+  intro vs
+  induction vs with
+  | nil =>
+    intro ps pv pp last h _
+    have : ps = [] := List.length_eq_zero_iff.mp h.symm
+    subst this
+    simp [Gen.MathUtils.serial_batch_inversion.for2, Gen.MathUtils.serial_batch_inversion.for2_ok, binvBackward]
+  | cons v vs ih =>
+    intro ps pv pp last h hp
+    cases ps with
+    | nil => simp at h
+    | cons p ps =>
+      have hlen : vs.length = ps.length := by simpa using h
+      obtain ⟨i1, i2⟩ := ih ps (pv ++ [v]) (pp ++ [p]) last hlen (by simp [hp])
+      simp only [List.append_assoc, List.singleton_append, List.length_append, List.length_cons, List.length_nil,
+        Nat.zero_add] at i1 i2
+      have hr : (List.range' pv.length (v :: vs).length).reverse =
+          (List.range' (pv.length + 1) vs.length).reverse ++ [pv.length] := by
+        simp [List.range'_succ]
+      obtain ⟨a1, a2⟩ := binvFor2_append O (pv ++ v :: vs) (List.range' (pv.length + 1) vs.length).reverse [pv.length]
+        (pp ++ p :: ps) last
+      rw [hr, a1, a2, i1, i2, List.zip_cons_cons, binvBackward]
+      simp only [Gen.MathUtils.serial_batch_inversion.for2, Gen.MathUtils.serial_batch_inversion.for2_ok]
+      unfold_gen Gen.MathUtils
+      have g1 : (pv ++ v :: vs).getD pv.length O.zero = v := by simp [List.getD]
+      have g2 : ∀ t : List α, (pp ++ p :: t).getD pv.length O.zero = p := by intro t; simp [List.getD, hp]
+      have g3 : ∀ (t : List α) (x : α), (pp ++ p :: t).set pv.length x = pp ++ x :: t := by
+        intro t x; rw [hp]; simp
+      simp only [toX_zero, toX_isZero, toX_mul, g1, g2, g3]
+      by_cases hz : O.isZero v = true
+      · simp [hz, hp]
+      · have hz' : O.isZero v = false := by simpa using hz
+        simp [hz', hp]
+
+/-- ★ `serial_batch_inversion(values, result)` (both loops; `result` of the same length, as its only caller
+    provides), for every operations record whose `inv` returns -/
+theorem gen_serial_batch_inversion_eq (hinv : ∀ y, (O.inv y).isSome = true) (values result : List α)
+    (hlen : result.length = values.length) :
+    serialBatchInversion O values = .ok (Gen.MathUtils.serial_batch_inversion O.toX values result) ∧
+    Gen.MathUtils.serial_batch_inversion_ok O.toX values result = true := by
+  obtain ⟨f1, f2⟩ := binvFwd O values result [] O.one hlen
+  have hfl : (binvForward O values O.one).1.length = values.length := by
+    have : ∀ (vs : List α) (l : α), (binvForward O vs l).1.length = vs.length := by
+      intro vs; induction vs with
+      | nil => intro l; simp [binvForward]
+      | cons v t ih => intro l; simp [binvForward, ih]
+    exact this values O.one
+  obtain ⟨b1, b2⟩ := binvBwd O values (binvForward O values O.one).1 [] []
+    (O.invT (binvForward O values O.one).2) hfl.symm rfl
+  simp only [List.nil_append, List.length_nil] at b1 b2
+  unfold serialBatchInversion
+  unfold_gen Gen.MathUtils
+  simp only [toX_one, toX_inv, f1, f2, List.nil_append, Nat.sub_zero]
+  have hd : List.drop (binvForward O values O.one).1.length result = [] := by
+    rw [hfl, ← hlen]; simp
+  simp only [hd, List.append_nil, b1, b2]
+  have hi : O.inv (binvForward O values O.one).2 = some (O.invT (binvForward O values O.one).2) := by
+    unfold Ops.invT
+    cases h : O.inv (binvForward O values O.one).2 with
+    | none => have := hinv (binvForward O values O.one).2; rw [h] at this; cases this
+    | some i => rfl
+  rw [hi]
+  simp
 
 end C20G
